@@ -8,6 +8,9 @@ One case per line:
                                        an oracle table for lgamma (bit patterns), computed by the harness with
                                        numba's `math.lgamma` on the arguments the Python kernel passes to it
   lg <id> <hex64>                      the driver's own lgamma (so that the harness can measure it)
+  dg <id> <hex64> / tg <id> <hex64>    Model/Special `digamma` / `trigamma` with the literals of Gen/Consts (`*_f64`)
+  kl <id> <x> <logx>                   Model/Special `approxGammaKL` (digamma/trigamma as above)
+                                       reply `<id> ok <shape-1> <rate>` | `<id> fail <reason>`
 Reply: `<id> <pre: 0|1> <hex64 | nan>...`   (`nan` = the model returns `none` in that position)
        `<id> bad-op` for an unknown kernel / wrong arity.
 
@@ -18,6 +21,8 @@ measured against `math.lgamma` by the harness on every run) and the reply is fla
 the harness compares that case with a tolerance instead of bit-for-bit.
 -/
 import TsdateVerif.Gen.KernelsRun
+import TsdateVerif.Gen.Consts
+import TsdateVerif.Model.Special
 import TsdateVerif.Model.Proto
 open Tsdate Tsdate.Proto Tsdate.Kernels
 
@@ -66,6 +71,38 @@ def pairs : List String → Option (List (UInt64 × Float))
     pure ((xb, vf) :: r)
   | _ => none
 
+/-- exact for the dyadic rationals of `Gen/Consts` (`*_f64`) and for quotients of exactly representable integers -/
+def ratToFloat (q : Rat) : Float := Float.ofInt q.num / Float.ofNat q.den
+
+def nthD (xs : List Rat) (i : Nat) : Float := ratToFloat (xs.getD i 0)
+
+open Tsdate.Gen.Consts in
+def digammaC : DigammaConsts Float :=
+  { c0 := nthD hypergeo.digamma_cutoffs_f64 0, c1 := nthD hypergeo.digamma_cutoffs_f64 1,
+    c2 := nthD hypergeo.digamma_cutoffs_f64 2, eulerGamma := ratToFloat hypergeo.euler_gamma_f64,
+    inv := ratToFloat hypergeo.digamma_inv_f64, cs := hypergeo.digamma_series_f64.map ratToFloat }
+
+open Tsdate.Gen.Consts in
+def trigammaC : TrigammaConsts Float :=
+  { c0 := nthD hypergeo.trigamma_cutoffs_f64 0, c1 := nthD hypergeo.trigamma_cutoffs_f64 1,
+    c2 := nthD hypergeo.trigamma_cutoffs_f64 2, lead := ratToFloat hypergeo.trigamma_lead_f64,
+    half := ratToFloat hypergeo.trigamma_half_f64, cs := hypergeo.trigamma_series_f64.map ratToFloat }
+
+def nanF : Float := 0.0 / 0.0
+def digammaF (x : Float) : Float := (digamma (specF []) digammaC 40 x).getD nanF
+/-- `np.power(xpm2, k)` is libm `pow` -/
+def trigammaF (x : Float) : Float := (trigamma (fun p k => Float.pow p (Float.ofNat k)) trigammaC 40 x).getD nanF
+
+open Tsdate.Gen.Consts in
+def klF : KLFns Float :=
+  { log := Float.log, digamma := digammaF, trigamma := trigammaF, isFinite := Float.isFinite, isInf := Float.isInf,
+    reltol := ratToFloat approx._KLMIN_RELTOL, maxitt := approx._KLMIN_MAXITT.num.toNat,
+    asym := ratToFloat approx.approximate_gamma_kl.asym_cutoff }
+
+def showFit : Fit Float → String
+  | .ok s r => "ok " ++ floatToHex s ++ " " ++ floatToHex r
+  | .fail why => "fail " ++ why
+
 def showOut (o : Option Float) : String :=
   match o with
   | none => "nan"
@@ -87,6 +124,16 @@ def runLine (ws : List String) : Option String :=
   | ["lg", id, x] => do
     let v ← hexToFloat x
     pure (id ++ " 1 " ++ floatToHex (lgammaF v))
+  | ["dg", id, x] => do
+    let v ← hexToFloat x
+    pure (id ++ " 1 " ++ floatToHex (digammaF v))
+  | ["tg", id, x] => do
+    let v ← hexToFloat x
+    pure (id ++ " 1 " ++ floatToHex (trigammaF v))
+  | ["kl", id, x, lx] => do
+    let v ← hexToFloat x
+    let l ← hexToFloat lx
+    pure (id ++ " " ++ showFit (approxGammaKL klF v l))
   | _ => none
 
 partial def loop (h : IO.FS.Stream) : IO Unit := do
